@@ -117,19 +117,36 @@ def hashinShtrikmanLower(mobility: np.array, phaseFracs: np.array, *args, **kwar
 def _postProcessDoNothing(therm: GeneralThermodynamics, mobility: np.array, phaseFracs: np.array, *args, **kwargs):
     return mobility, phaseFracs
 
+def _stablePhaseNames(therm: GeneralThermodynamics, mobility: np.array, **kwargs):
+    '''
+    Names of the phases that the rows of mobility / entries of phaseFracs refer to
+
+    These are the stable phases at the current composition (one per composition set), passed
+    as the "phases" keyword. If not supplied, the rows are taken to follow therm.phases
+    '''
+    phases = kwargs.get('phases', None)
+    if phases is None:
+        phases = therm.phases
+    return [str(p) for p in phases][:len(mobility)]
+
 def _postProcessPredefinedMatrixPhase(therm: GeneralThermodynamics, mobility: np.array, phaseFracs: np.array, *args, **kwargs):
     '''
     User will supply a predefined "alpha" phase, which the mobility is taken
     from for all undefined mobility
 
     Note: this assumes the user will know that "alpha" is continuously stable
-    across the diffusion couple
+    across the diffusion couple. Where "alpha" is not stable, the mobility is left unchanged
     '''
     alpha_phase = args[0]
-    alpha_idx = therm.phases.index(alpha_phase)
-    alpha_mob = mobility[alpha_idx]
-    for i in range(mobility.shape[1]):
-        mobility[:,i][mobility[:,i] == -1] = alpha_mob[i]
+    therm.phases.index(alpha_phase)    # alpha must be a phase of the system
+    # the rows of mobility correspond to the stable phases, not to therm.phases
+    phases = _stablePhaseNames(therm, mobility, **kwargs)
+    # work on a copy, the input arrays may be stored in the hash table
+    mobility = np.array(mobility, dtype=np.float64)
+    if alpha_phase in phases:
+        alpha_mob = np.array(mobility[phases.index(alpha_phase)])
+        for i in range(mobility.shape[1]):
+            mobility[:,i][mobility[:,i] == -1] = alpha_mob[i]
     return mobility, phaseFracs
 
 def _postProcessMajorityPhase(therm: GeneralThermodynamics, mobility: np.array, phaseFracs: np.array, *args, **kwargs):
@@ -138,8 +155,11 @@ def _postProcessMajorityPhase(therm: GeneralThermodynamics, mobility: np.array, 
     with undefined mobility
     '''
     max_idx = np.argmax(phaseFracs)
+    # work on a copy, the input arrays may be stored in the hash table
+    mobility = np.array(mobility, dtype=np.float64)
+    majority_mob = np.array(mobility[max_idx])
     for i in range(mobility.shape[1]):
-        mobility[:,i][mobility[:,i] == -1] = mobility[max_idx,i]
+        mobility[:,i][mobility[:,i] == -1] = majority_mob[i]
     return mobility, phaseFracs
 
 def _postProcessExcludePhases(therm: GeneralThermodynamics, mobility: np.array, phaseFracs: np.array, *args, **kwargs):
@@ -149,9 +169,15 @@ def _postProcessExcludePhases(therm: GeneralThermodynamics, mobility: np.array, 
     mobility is unknown
     '''
     excluded_phases = args[0]
-    phase_idxs = [therm.phases.index(p) for p in excluded_phases]
-    for p in phase_idxs:
-        phaseFracs[p] = 0
+    for p in excluded_phases:
+        therm.phases.index(p)          # excluded phases must be phases of the system
+    # the entries of phaseFracs correspond to the stable phases, not to therm.phases
+    phases = _stablePhaseNames(therm, mobility, **kwargs)
+    # work on a copy, the input arrays may be stored in the hash table
+    phaseFracs = np.array(phaseFracs, dtype=np.float64)
+    for p in range(len(phases)):
+        if phases[p] in excluded_phases:
+            phaseFracs[p] = 0
     return mobility, phaseFracs
 
 class HomogenizationParameters:
@@ -352,7 +378,7 @@ def computeHomogenizationFunction(therm : GeneralThermodynamics, x, T, homogeniz
         phase_fracs = mobility_data.phase_fractions
         chemical_potentials[i,:] = mobility_data.chemical_potentials
 
-        mob, phase_fracs = homogenizationParameters.postProcessFunction(therm, mob, phase_fracs, *homogenizationParameters.postProcessParameters)
+        mob, phase_fracs = homogenizationParameters.postProcessFunction(therm, mob, phase_fracs, *homogenizationParameters.postProcessParameters, phases = mobility_data.phases)
         avg_mob[i] = homogenizationParameters.homogenizationFunction(mob, phase_fracs, labyrinth_factor = homogenizationParameters.labyrinthFactor)
 
     return np.squeeze(avg_mob), np.squeeze(chemical_potentials)
